@@ -33,10 +33,12 @@ REPO = os.environ.get("VERIF_REPO", "/repo")
 class PropertyFailure(Exception):
     """The code under test violated the property on this case."""
 
-    def __init__(self, discriminator, observed=None):
+    def __init__(self, discriminator, observed=None, multi=None):
         super().__init__(f"{discriminator}: {observed}")
         self.discriminator = str(discriminator)
         self.observed = observed
+        # several independent failures found on the same case
+        self.multi = multi or [(self.discriminator, observed)]
 
 
 class HarnessError(Exception):
@@ -80,10 +82,23 @@ def to_json(o):
 class Note:
     """Per-case reporting handle handed to test functions."""
 
-    def __init__(self):
+    def __init__(self, excluded=()):
         self.nontrivial = False
         self.classes = []
         self.extra = None
+        self.excluded = set(excluded)
+        self.excluded_hits = 0
+        self.pending = []
+
+    def fail(self, disc, observed=None):
+        """Record a failure and keep going (collect-then-report); failures
+        whose discriminator is already known/excluded are only counted."""
+        disc = str(disc)
+        if disc in self.excluded:
+            self.excluded_hits += 1
+            return
+        if all(d != disc for d, _ in self.pending):
+            self.pending.append((disc, observed))
 
     def nt(self, flag=True):
         self.nontrivial = bool(flag)
@@ -97,7 +112,7 @@ class Sub:
 
     def __init__(self, name, strategy, test, examples, generic=None,
                  shards=1, kind="given", machine=None, steps=30,
-                 max_rounds=4, budget_s=None):
+                 max_rounds=4, budget_s=None, shrink_quick=True):
         self.name = name
         self.strategy = strategy
         self.test = test
@@ -109,6 +124,8 @@ class Sub:
         self.steps = steps
         self.max_rounds = max_rounds
         self.budget_s = budget_s
+        # expensive sub-checks skip Hypothesis' shrink phase in the quick tier
+        self.shrink_quick = shrink_quick
 
 
 class Stats:
@@ -145,16 +162,23 @@ class Stats:
 
 def _call(sub, case, stats, excluded, sample=True):
     """Run one case through the oracle; book-keeping; raise on failure."""
-    note = Note()
+    note = Note(excluded)
     stats.evaluations += 1
     try:
         sub.test(case, note)
+        if note.pending:
+            raise PropertyFailure(note.pending[0][0], note.pending[0][1],
+                                  multi=list(note.pending))
     except PropertyFailure as e:
-        if e.discriminator in excluded:
+        e.multi = [(d, o) for d, o in e.multi if d not in excluded]
+        if not e.multi:
             stats.excluded += 1
             _book(case, note, stats, sample)
             return
+        e.discriminator, e.observed = e.multi[0]
         raise
+    if note.excluded_hits:
+        stats.excluded += 1
     _book(case, note, stats, sample)
 
 
@@ -167,7 +191,8 @@ def _book(case, note, stats, sample):
         stats.samples.append(to_json(case))
 
 
-def run_given(prop, sub, seed, tier, shard=0, examples=None, t_end=None):
+def run_given(prop, sub, seed, tier, shard=0, examples=None, t_end=None,
+              nshards=1):
     """Run a sub-check under Hypothesis; return Stats (with failures)."""
     import hypothesis
     from hypothesis import HealthCheck, Phase, given, settings
@@ -177,18 +202,18 @@ def run_given(prop, sub, seed, tier, shard=0, examples=None, t_end=None):
     examples = sub.examples if examples is None else examples
 
     # fixed generic cases and saved regression replays first (no Hypothesis)
-    fixed = list(sub.generic) if shard == 0 else []
-    if shard == 0:
-        fixed += load_regressions(prop, sub.name)
+    fixed = (list(sub.generic)
+             + load_regressions(prop, sub.name))[shard::max(1, nshards)]
     for case in fixed:
         for _ in range(sub.max_rounds):
             try:
                 _call(sub, case, stats, excluded)
                 break
             except PropertyFailure as e:
-                stats.failures.append((sub.name, e.discriminator,
-                                       to_json(case), to_json(e.observed)))
-                excluded.add(e.discriminator)
+                for d, o in e.multi:
+                    stats.failures.append((sub.name, d, to_json(case),
+                                           to_json(o)))
+                    excluded.add(d)
 
     if sub.strategy is None or examples <= 0:
         return stats
@@ -209,8 +234,7 @@ def run_given(prop, sub, seed, tier, shard=0, examples=None, t_end=None):
                 _call(sub, case, stats, excluded)
             except PropertyFailure as e:
                 last["case"] = to_json(case)
-                last["disc"] = e.discriminator
-                last["obs"] = to_json(e.observed)
+                last["multi"] = [(d, to_json(o)) for d, o in e.multi]
                 if shrink_t0[0] is None:
                     shrink_t0[0] = time.time()
                 raise
@@ -222,7 +246,9 @@ def run_given(prop, sub, seed, tier, shard=0, examples=None, t_end=None):
             derandomize=False, report_multiple_bugs=False,
             print_blob=False,
             suppress_health_check=list(HealthCheck),
-            phases=[Phase.generate, Phase.shrink])(test)
+            phases=([Phase.generate, Phase.shrink]
+                    if (tier != "quick" or sub.shrink_quick)
+                    else [Phase.generate]))(test)
         try:
             test()
             break
@@ -238,24 +264,24 @@ def run_given(prop, sub, seed, tier, shard=0, examples=None, t_end=None):
                 raise HarnessError(
                     f"{prop}/{sub.name}: unexpected "
                     f"{type(e).__name__}: {e}\n{traceback.format_exc()}")
-            stats.failures.append((sub.name, last["disc"], last["case"],
-                                   last["obs"]))
-            excluded.add(last["disc"])
+            for d, o in last["multi"]:
+                stats.failures.append((sub.name, d, last["case"], o))
+                excluded.add(d)
     return stats
 
 
 def _shard_entry(args):
-    modname, subname, seed, tier, shard, examples, t_end = args
+    modname, subname, seed, tier, shard, examples, t_end, nsh = args
     try:
         import importlib
         mod = importlib.import_module(modname)
         sub = [s for s in mod.subchecks(tier) if s.name == subname][0]
         if sub.kind == "machine":
             st = run_machine(mod.PROPERTY, sub, seed, tier, shard, examples,
-                             t_end)
+                             t_end, nsh)
         else:
             st = run_given(mod.PROPERTY, sub, seed, tier, shard, examples,
-                           t_end)
+                           t_end, nsh)
         return ("ok", st)
     except HarnessError as e:
         return ("harness", str(e))
@@ -263,7 +289,8 @@ def _shard_entry(args):
         return ("harness", f"{type(e).__name__}: {e}\n{traceback.format_exc()}")
 
 
-def run_machine(prop, sub, seed, tier, shard=0, examples=None, t_end=None):
+def run_machine(prop, sub, seed, tier, shard=0, examples=None, t_end=None,
+                nshards=1):
     """Run a RuleBasedStateMachine sub-check.
 
     ``sub.machine`` is a factory ``(stats, excluded) -> MachineClass``.  The
@@ -278,18 +305,18 @@ def run_machine(prop, sub, seed, tier, shard=0, examples=None, t_end=None):
     stats = Stats()
     excluded = set()
     examples = sub.examples if examples is None else examples
-    fixed = list(sub.generic) if shard == 0 else []
-    if shard == 0:
-        fixed += load_regressions(prop, sub.name)
+    fixed = (list(sub.generic)
+             + load_regressions(prop, sub.name))[shard::max(1, nshards)]
     for case in fixed:
         for _ in range(sub.max_rounds):
             try:
                 _call(sub, case, stats, excluded)
                 break
             except PropertyFailure as e:
-                stats.failures.append((sub.name, e.discriminator,
-                                       to_json(case), to_json(e.observed)))
-                excluded.add(e.discriminator)
+                for d, o in e.multi:
+                    stats.failures.append((sub.name, d, to_json(case),
+                                           to_json(o)))
+                    excluded.add(d)
     if examples <= 0:
         return stats
     for rnd in range(sub.max_rounds):
@@ -303,7 +330,9 @@ def run_machine(prop, sub, seed, tier, shard=0, examples=None, t_end=None):
                       deadline=None, database=None, derandomize=False,
                       report_multiple_bugs=False, print_blob=False,
                       suppress_health_check=list(HealthCheck),
-                      phases=[Phase.generate, Phase.shrink])
+                      phases=([Phase.generate, Phase.shrink]
+                              if (tier != "quick" or sub.shrink_quick)
+                              else [Phase.generate]))
         try:
             run_state_machine_as_test(Machine, settings=st)
             break
@@ -316,9 +345,9 @@ def run_machine(prop, sub, seed, tier, shard=0, examples=None, t_end=None):
                 raise HarnessError(
                     f"{prop}/{sub.name}: unexpected "
                     f"{type(e).__name__}: {e}\n{traceback.format_exc()}")
-            stats.failures.append((sub.name, last["disc"], last["case"],
-                                   last["obs"]))
-            excluded.add(last["disc"])
+            for d, o in last["multi"]:
+                stats.failures.append((sub.name, d, last["case"], o))
+                excluded.add(d)
     return stats
 
 
@@ -404,19 +433,25 @@ def main_run(mod, tier, seed, only=None, replay=None):
             print(f"HARNESS-ERROR unknown subcheck {r['subcheck']}")
             return 2
         note = Note()
+        multi = []
         try:
             sub[0].test(r["case"], note)
+            multi = list(note.pending)
         except PropertyFailure as e:
-            sig = signature(prop, sub[0].name, e.discriminator)
-            print(f"replay reproduces: {sig}: {e.observed}")
+            multi = e.multi
+        rc = 0
+        for d, o in multi:
+            sig = signature(prop, sub[0].name, d)
+            print(f"replay reproduces: {sig}: {o}")
             if sig in known:
                 print(f"KNOWN-FINDING: property={prop} {sig} "
                       f"{known[sig].get('what', '')}")
-                return 0
-            print(f"VIOLATION property={prop} replay={replay}")
-            return 1
-        print("replay passes (property holds on this case)")
-        return 0
+            else:
+                print(f"VIOLATION property={prop} replay={replay}")
+                rc = 1
+        if not multi:
+            print("replay passes (property holds on this case)")
+        return rc
 
     total = Stats()
     per_sub = {}
@@ -426,10 +461,11 @@ def main_run(mod, tier, seed, only=None, replay=None):
 
     jobs = []
     for s in subs:
-        n = max(1, s.shards if tier == "thorough" else min(s.shards, 4))
+        n = max(1, s.shards if tier == "thorough" else min(s.shards, 8))
         per = max(1, math.ceil(s.examples / n)) if s.examples > 0 else 0
         for sh in range(n):
-            jobs.append((mod.__name__, s.name, seed, tier, sh, per, t_end))
+            jobs.append((mod.__name__, s.name, seed, tier, sh, per, t_end,
+                         n))
     nproc = int(os.environ.get("VERIF_NPROC", "16"))
     nproc = max(1, min(nproc, len(jobs)))
     if nproc == 1 or os.environ.get("VERIF_SERIAL"):
